@@ -73,7 +73,12 @@ func ruleIdxUnits(c *Ctx) {
 					}
 				}
 				be, ok := e.(*ast.BinaryExpr)
-				if !ok || be.Op != token.SUB || !isRecvField(info, be.Y, recv, "indexOffset") {
+				if !ok || be.Op != token.SUB {
+					return nil, false
+				}
+				// pr.indexOffset itself, or a local that merely names it (offset := pr.indexOffset)
+				sub := resolveLocal(info, be.Y, defs, 3)
+				if !isRecvField(info, be.Y, recv, "indexOffset") && !isRecvField(info, sub, recv, "indexOffset") {
 					return nil, false
 				}
 				return be.X, true
@@ -755,6 +760,19 @@ func rulePruneTogether(c *Ctx) {
 				be, ok := ast.Unparen(cond).(*ast.BinaryExpr)
 				return ok && inBody && be.Op == token.NEQ && isRecvField(info, be.X, sinkRecv, "sink")
 			})
+			// or known from what holds on the way to the call: an enclosing branch, an earlier `if sink == nil { leave }`
+			for _, pf := range pathFactsAt(sparents, sinkCall) {
+				x, y := pf.be.X, pf.be.Y
+				if isNilExpr(info, x) {
+					x, y = y, x
+				}
+				if !isNilExpr(info, y) || !isRecvField(info, x, sinkRecv, "sink") {
+					continue
+				}
+				if (pf.be.Op == token.NEQ && !pf.neg) || (pf.be.Op == token.EQL && pf.neg) {
+					callGuarded = true
+				}
+			}
 		}
 		switch {
 		case collectGuarded:
